@@ -104,3 +104,88 @@ Definition base_string (method scheme netloc path : text) (ps : list (text * tex
 (* both versions now encode both secrets (fix f833e02) *)
 Definition signing_key (consumer_secret token_secret : text) : text :=
   esc consumer_secret ++ AMP :: esc token_secret.
+
+(* ====================================================================== *)
+(* Phase 3: the glue around the base string.                               *)
+(* ====================================================================== *)
+From Coq Require Import String Ascii Decimal.
+
+(* the authority as Tornado sees it: optional "userinfo@", host, optional ":port" *)
+Definition authority (ui : option text) (host : text) (port : option text) : text :=
+  (match ui with Some u => u ++ [64] | None => [] end) ++ host
+  ++ (match port with Some p => 58 :: p | None => [] end).
+
+(* ASCII literal -> bytes *)
+Definition txt (s : string) : text := map N_of_ascii (list_ascii_of_string s).
+
+(* urllib.parse.quote(s, safe=<safe>) on bytes: _ALWAYS_SAFE (= is_unreserved since
+   Python 3.7) plus the bytes of [safe]; everything else '%XX' (upper-case hex) *)
+Definition quote_byte (safe : text) (b : N) : text :=
+  if is_unreserved b || existsb (N.eqb b) safe then [b]
+  else [37; hexdigit (b / 16); hexdigit (b mod 16)].
+Definition py_quote (safe s : text) : text := flat_map (quote_byte safe) s.
+Definition TILDE : text := [126].
+
+Definition opt_text (f : text -> text) (o : option text) : text :=
+  match o with Some t => f t | None => [] end.
+
+(* key_elems / b"&".join(key_elems) of _oauth_signature: _oauth_escape of both secrets,
+   "" when there is no token *)
+Definition key_10 (cs : text) (tok : option text) : text :=
+  join_with AMP [esc cs; opt_text esc tok].
+(* ... and of _oauth10a_signature: urllib.parse.quote(secret, safe="~") *)
+Definition key_10a (cs : text) (tok : option text) : text :=
+  join_with AMP [py_quote TILDE cs; opt_text (py_quote TILDE) tok].
+Definition key_of (v10a : bool) : text -> option text -> text := if v10a then key_10a else key_10.
+
+(* ---------- OAuthMixin._oauth_request_parameters ---------- *)
+(* binascii.b2a_hex *)
+Definition hexl (n : N) : N := if n <? 10 then 48 + n else 87 + n.
+Definition hex_lower (s : text) : text := flat_map (fun b => [hexl (b / 16); hexl (b mod 16)]) s.
+
+(* str(int) for a non-negative int *)
+Fixpoint uint_text (u : Decimal.uint) : text :=
+  match u with
+  | Nil => []
+  | D0 u => 48 :: uint_text u | D1 u => 49 :: uint_text u | D2 u => 50 :: uint_text u
+  | D3 u => 51 :: uint_text u | D4 u => 52 :: uint_text u | D5 u => 53 :: uint_text u
+  | D6 u => 54 :: uint_text u | D7 u => 55 :: uint_text u | D8 u => 56 :: uint_text u
+  | D9 u => 57 :: uint_text u
+  end.
+Definition dec (n : N) : text := uint_text (N.to_uint n).
+
+(* a dict as an association list in insertion order; d[k] = v and d.update(u) *)
+Definition pdict := list (text * text).
+Fixpoint dict_set (k v : text) (d : pdict) : pdict :=
+  match d with
+  | [] => [(k, v)]
+  | (k', v') :: d' => if text_eqb k k' then (k, v) :: d' else (k', v') :: dict_set k v d'
+  end.
+Definition dict_update (d u : pdict) : pdict :=
+  fold_left (fun d kv => dict_set (fst kv) (snd kv) d) u d.
+
+Definition K_CONSUMER_KEY := txt "oauth_consumer_key".
+Definition K_TOKEN := txt "oauth_token".
+Definition K_SIGNATURE_METHOD := txt "oauth_signature_method".
+Definition K_TIMESTAMP := txt "oauth_timestamp".
+Definition K_NONCE := txt "oauth_nonce".
+Definition K_VERSION := txt "oauth_version".
+Definition K_SIGNATURE := txt "oauth_signature".
+
+(* base_args; [time] = int(time.time()), [nonce] = uuid.uuid4().bytes *)
+Definition base_args (ck tk : text) (time : N) (nonce : text) : pdict :=
+  [(K_CONSUMER_KEY, ck); (K_TOKEN, tk); (K_SIGNATURE_METHOD, txt "HMAC-SHA1");
+   (K_TIMESTAMP, dec time); (K_NONCE, hex_lower nonce); (K_VERSION, txt "1.0")].
+
+(* args = {}; args.update(base_args); args.update(parameters) *)
+Definition signed_args (ck tk : text) (time : N) (nonce : text) (user : pdict) : pdict :=
+  dict_update (dict_update [] (base_args ck tk time nonce)) user.
+
+(* the (key, text) handed to HMAC-SHA1 by _oauth_request_parameters *)
+Definition request_key (v10a : bool) (cs tsec : text) : text := key_of v10a cs (Some tsec).
+Definition request_base (method scheme netloc path ck tk : text) (time : N) (nonce : text) (user : pdict) : text :=
+  base_string method scheme netloc path (signed_args ck tk time nonce user).
+
+(* base_args["oauth_signature"] = signature; return base_args *)
+Definition request_parameters (sig ck tk : text) (time : N) (nonce : text) : pdict :=
+  dict_set K_SIGNATURE sig (base_args ck tk time nonce).
